@@ -233,7 +233,7 @@ theorem X.addSubInt_spec (sub : Bool) (x : Q) (i : ℤ) (hx : RelaxedInv x) :
   · refine ⟨hx.1, ?_⟩
     rintro ⟨e1, e2⟩
     apply hx.2
-    simp only at e2
+    change b % 2 = 0 at e2
     have e2' : (b : ℤ) % 2 = 0 := by omega
     refine ⟨?_, e2⟩
     cases sub
@@ -253,7 +253,7 @@ theorem X.intSub_spec (i : ℤ) (x : Q) (hx : RelaxedInv x) :
   · refine ⟨hx.1, ?_⟩
     rintro ⟨e1, e2⟩
     apply hx.2
-    simp only at e2
+    change b % 2 = 0 at e2
     have e2' : (b : ℤ) % 2 = 0 := by omega
     refine ⟨?_, e2⟩
     simp only [X.intSub] at e1
@@ -310,6 +310,9 @@ theorem relaxed_inv (x : Q) (hx : RelaxedInv x) :
     refine ⟨_, rfl, ⟨hapos, ?_⟩, ?_⟩
     · rintro ⟨e1, e2⟩
       apply hx.2
+      change (sgn a * (b : ℤ)) % 2 = 0 at e1
+      change a.natAbs % 2 = 0 at e2
+      change a % 2 = 0 ∧ b % 2 = 0
       constructor
       · omega
       · unfold sgn at e1
